@@ -21,6 +21,13 @@ from ..rules.common import (FactRule, GateRule, run_rule, call_name, calls_of, p
 from . import c15
 
 
+VERDICT_TABLE = (
+    ('validate_file', 'has_uncompressed_source',
+     'files with the uncompressed-source flag carry no usable whole-data digest (the data digest is over uncompressed '
+     'data that is not stored); today\'s behaviour, named exception'),
+    ('validate_header', None, None), ('validate_chunk', None, None))
+
+
 class OrderRule(FactRule):
     """Calls in `later` require the success edge of `first` to have been taken."""
     name = 'R2.order'
@@ -205,31 +212,8 @@ def run(ctx):
               rule.violations[0].node.line if rule.violations else fn.line,
               path=rule.violations[0].path if rule.violations else None, config=config)
         # ---- f  the verdict functions themselves: a positive verdict only on the equal edge of the digest comparison
-        nv = 0
-        for vname, exc_field, exc_why in (
-                ('validate_file', 'has_uncompressed_source',
-                 'files with the uncompressed-source flag carry no usable whole-data digest (format: the data digest '
-                 'is over uncompressed data that is not stored); today\'s behaviour, named exception'),
-                ('validate_header', None, None), ('validate_chunk', None, None)):
-            vf = prog.need_func(vname)
-            cmp_calls = calls_of(vf, ('memcmp',))
-            ck.require(len(cmp_calls) >= 1, '%s: digest comparison not found' % vname)
-
-            def exc_edge(rule, ctx2, node, label, refined, ts, exc_field=exc_field):
-                from ..rules.common import atom_cmp
-                op, l, r = atom_cmp(node.e, label)
-                if exc_field and last_field(l) == exc_field and op == '!=' and const_value(r) == 0:
-                    ts = ts | frozenset(['gate:memcmp', 'exception'])
-                return ts
-            rule = GateRule(prog, vf, {'memcmp': Z}, P1 | POS, extra_edge=exc_edge)
-            run_rule(prog, vf, rule)
-            nv += rule.success_exits
-            ck.ob('C02-f', 'R2.gate', vname, 'digest-compare', not rule.violations,
-                  '%d positive-verdict exit(s), each on the equal edge of memcmp()%s' % (
-                      rule.success_exits, (' or under %s (%s)' % (exc_field, exc_why)) if exc_field else '')
-                  if not rule.violations else rule.violations[0].msg + ': the verdict is positive without the digests '
-                  'having been compared', vf.file, rule.violations[0].node.line if rule.violations else vf.line,
-                  path=rule.violations[0].path if rule.violations else None, config=config)
+        from ..rules import dlrules
+        nv = dlrules.verdict_gates(ck, prog, config, 'C02-f', VERDICT_TABLE)
         ck.min_instances('positive-verdict exits of the verdict functions', nv, 4)
         # ---- d
         pairing(ck, prog, 'comp_read', ('read_data', 1, None),
